@@ -236,6 +236,17 @@ def check_r113(fx, rep):
             f"values that share one type variable by structure are those containing {sorted(direct)}{' (and everything else)' if other_true else ''}; the identity-bearing kinds are exactly {sorted(want)} — anything more makes unrelated occurrences (e.g. equal constants) share evidence",
             sample={"rule": "R11.3", "stable_on_their_own": sorted(direct)},
         )
+        # of those, a storage slot IS a slot and a `Value` carries a unique id; any other kind that shares one type variable
+        # between all its structurally equal occurrences joins the evidence of every slot those occurrences flow into
+        for v in sorted(direct - {"StorageSlot", "Value"}):
+            rep.oblige(
+                False,
+                "R11.3",
+                f"evidence-shared-across-slots:{v}",
+                F.loc(ist["span"]),
+                f"every occurrence of a structurally equal `{v}` node shares one type variable: evidence that code touching only slot B puts on such a word (a mask, a comparison) reaches slot A when the same word is stored there, so adding code for B changes A's entry",
+                sample={"rule": "R11.3", "kind": v},
+            )
     if rep.anchor("R11.3", reg is not None, "the registration function of the type-checker state"):
         root = reg["hir"]["value"]
         mutated = T.mutated_locals(root)
